@@ -66,7 +66,8 @@ namespace
 
   std::string assign_str(const std::vector<int>& a) { std::string s; for(int x : a) s += char(x < 10 ? '0' + x : 'a' + x - 10); return s; }
 
-  Adjacency::Graph make_graph(const std::vector<int>& a, int p, bool reverse)
+  /// order: 0 ascending cell indices per rank, 1 descending, 2 non-monotone (odd positions first)
+  Adjacency::Graph make_graph(const std::vector<int>& a, int p, int order)
   {
     const Index n = Index(a.size());
     Adjacency::Graph g(Index(p), n, n);
@@ -75,8 +76,11 @@ namespace
     for(int r = 0; r < p; ++r)
     {
       ptr[r] = k;
-      if(!reverse) { for(Index i = 0; i < n; ++i) if(a[size_t(i)] == r) idx[k++] = i; }
-      else { for(Index i = n; i-- > 0; ) if(a[size_t(i)] == r) idx[k++] = i; }
+      std::vector<Index> cl;
+      for(Index i = 0; i < n; ++i) if(a[size_t(i)] == r) cl.push_back(i);
+      if(order == 1) std::reverse(cl.begin(), cl.end());
+      if(order == 2) { std::vector<Index> o; for(size_t i = 1; i < cl.size(); i += 2) o.push_back(cl[i]); for(size_t i = 0; i < cl.size(); i += 2) o.push_back(cl[i]); cl = o; }
+      for(Index x : cl) idx[k++] = x;
     }
     ptr[p] = k;
     return g;
@@ -418,17 +422,98 @@ namespace
     }
 
     /// one partition given as elements-at-rank graph: extract every patch, check, refine jointly, check again
-    static void run_partition(verif::Ctx& c, std::unique_ptr<NodeType> base, const Adjacency::Graph& graph, int depth, int qtot)
+    /// complete comparison of two mesh nodes (mesh, parts, halos, patches); empty string if equal
+    static std::string node_diff(const NodeType& a, const NodeType& b, int qtot)
+    {
+      vm::PMesh A, B; std::string err;
+      vm::extract_mesh(A, *a.get_mesh(), qtot, &err); vm::extract_mesh(B, *b.get_mesh(), qtot, &err);
+      std::string d = vm::diff_mesh(A, B); if(!d.empty()) return "mesh: " + d;
+      auto names = a.get_mesh_part_names();
+      if(names != b.get_mesh_part_names()) return "mesh part names differ";
+      for(const auto& nm : names)
+      {
+        const PartType* pa = a.find_mesh_part(nm); const PartType* pb = b.find_mesh_part(nm);
+        if((pa == nullptr) != (pb == nullptr)) return "part '" + nm + "' is null in one node only";
+        if(pa == nullptr) continue;
+        vm::PPart X, Y; vm::extract_part(X, *pa); vm::extract_part(Y, *pb);
+        d = vm::diff_part(X, Y); if(!d.empty()) return "part '" + nm + "': " + d;
+      }
+      auto cmpmap = [&](const std::map<int, std::unique_ptr<PartType>>& ma, const std::map<int, std::unique_ptr<PartType>>& mb, const std::string& what) -> std::string
+      {
+        if(ma.size() != mb.size()) return what + " map sizes differ (" + vm::str(ma.size()) + " vs " + vm::str(mb.size()) + ")";
+        auto ia = ma.begin(); auto ib = mb.begin();
+        for(; ia != ma.end(); ++ia, ++ib)
+        {
+          if(ia->first != ib->first) return what + " keys differ";
+          if((ia->second == nullptr) != (ib->second == nullptr)) return what + " " + vm::str(ia->first) + " null in one node only";
+          if(!ia->second) continue;
+          vm::PPart X, Y; vm::extract_part(X, *ia->second); vm::extract_part(Y, *ib->second);
+          std::string dd = vm::diff_part(X, Y); if(!dd.empty()) return what + " " + vm::str(ia->first) + ": " + dd;
+        }
+        return "";
+      };
+      d = cmpmap(a.get_halo_map(), b.get_halo_map(), "halo"); if(!d.empty()) return d;
+      return cmpmap(a.get_patch_map(), b.get_patch_map(), "patch");
+    }
+
+    /// one partition given as elements-at-rank graph: extract every patch, check, refine jointly, check again.
+    /// variant selects: order in which the ranks are extracted, which overload is used (Graph / Partition), which nodes
+    /// are replaced by their clones before the joint refinement.
+    static void run_partition(verif::Ctx& c, std::unique_ptr<NodeType> base, const Adjacency::Graph& graph, int depth, int qtot, int variant = 0)
     {
       const int p = int(graph.get_num_nodes_domain());
       std::vector<Leaf> leaves{size_t(p)};
-      for(int r = 0; r < p; ++r)
+      std::vector<int> order;
+      for(int r = 0; r < p; ++r) order.push_back(r);
+      if(variant % 3 == 1) std::reverse(order.begin(), order.end());
+      if(variant % 3 == 2) std::rotate(order.begin(), order.begin() + p / 2, order.end());
+      Partition partition(graph.clone(), "vf");
+      for(int r : order)
       {
         std::vector<int> comm;
         leaves[size_t(r)].rank = r;
-        leaves[size_t(r)].node = base->extract_patch(comm, graph, r);
+        if((variant / 3) % 2 == 0) leaves[size_t(r)].node = base->extract_patch(comm, graph, r);
+        else leaves[size_t(r)].node = base->extract_patch(comm, partition, r);
         collect_comm(leaves[size_t(r)], comm);
         c.count("patches_extracted");
+      }
+      // re-invocation: extracting a rank again from the same (now fully populated) base node gives the same patch
+      {
+        const int r = order[0];
+        std::vector<int> comm;
+        std::unique_ptr<NodeType> again = base->extract_patch(comm, graph, r);
+        std::string d = node_diff(*leaves[size_t(r)].node, *again, qtot);
+        std::set<int> cs(comm.begin(), comm.end());
+        if(d.empty() && (cs != leaves[size_t(r)].comm || cs.size() != comm.size())) d = "comm_ranks differ";
+        c.check(d.empty(), "reinvoke.extract_patch", [&]{ return "second extract_patch of rank " + vm::str(r) + " on the same base node differs from the first: " + d; });
+        // create_patch_meshpart on a clone without patches must create the same patch parts as extract_patch did
+        std::unique_ptr<NodeType> bc = base->clone_unique();
+        d = node_diff(*base, *bc, qtot);
+        c.check(d.empty(), "clone.base", [&]{ return "clone_unique() of the base node differs: " + d; });
+        bc->clear_patches();
+        for(int q : order) bc->create_patch_meshpart(graph, q);
+        for(int q = 0; q < p; ++q)
+        {
+          const PartType* p1 = base->get_patch(q); const PartType* p2 = bc->get_patch(q);
+          if(p1 == nullptr || p2 == nullptr) { c.fail("create_patch_meshpart.missing", "patch part " + vm::str(q) + " missing"); continue; }
+          vm::PPart X, Y; vm::extract_part(X, *p1); vm::extract_part(Y, *p2);
+          std::string dd = vm::diff_part(X, Y);
+          c.check(dd.empty(), "create_patch_meshpart.differs", [&]{ return "create_patch_meshpart(graph, " + vm::str(q) + ") differs from the patch part registered by extract_patch: " + dd; });
+        }
+        c.count("reinvocations_checked");
+      }
+      // derived objects: clones take the place of the originals for the rest of the pipeline
+      if((variant / 6) % 2 == 1)
+      {
+        for(Leaf& L : leaves) if(L.rank % 2 == 0)
+        {
+          std::unique_ptr<NodeType> cl = L.node->clone_unique();
+          std::string d = node_diff(*L.node, *cl, qtot);
+          c.check(d.empty(), "clone.patch", [&]{ return "clone_unique() of patch node " + vm::str(L.rank) + " differs: " + d; });
+          L.node = std::move(cl);
+        }
+        base = base->clone_unique();
+        c.count("clones_substituted");
       }
       for(int lvl = 0; lvl <= depth; ++lvl)
       {
@@ -452,7 +537,7 @@ namespace
     static void run_two_level(verif::Ctx& c, std::unique_ptr<NodeType> base, const std::vector<int>& a1, int P,
       const std::vector<std::vector<int>>& a2, const std::vector<int>& K, int pref, int depth, int qtot)
     {
-      Adjacency::Graph g1 = make_graph(a1, P, false);
+      Adjacency::Graph g1 = make_graph(a1, P, 0);
       std::vector<std::unique_ptr<NodeType>> par{size_t(P)};
       for(int p = 0; p < P; ++p) { std::vector<int> comm; par[size_t(p)] = base->extract_patch(comm, g1, p); }
       for(int i = 0; i < pref; ++i)
@@ -469,7 +554,7 @@ namespace
       for(int p = 0; p < P; ++p)
       {
         NodeType& pn = *par[size_t(p)];
-        Adjacency::Graph g2 = make_graph(a2[size_t(p)], K[size_t(p)], false);
+        Adjacency::Graph g2 = make_graph(a2[size_t(p)], K[size_t(p)], (p + int(a2[size_t(p)].size())) % 3);
         buf[size_t(p)].resize(size_t(K[size_t(p)]));
         for(int ch = 0; ch < K[size_t(p)]; ++ch)
         {
@@ -615,19 +700,18 @@ namespace
         c.desc([&]{ return what + " " + vm::spec_str(ms) + " ranks=" + std::to_string(p) + " cell->rank=" + assign_str(a) + " depth=" + std::to_string(depth); });
         const int qtot = 3 * depth;
         auto base = X::make_base(ms, qtot, int(code % 18));
-        Adjacency::Graph g = make_graph(a, p, (code % 3) == 2);
-        X::run_partition(c, std::move(base), g, depth, qtot);
+        Adjacency::Graph g = make_graph(a, p, int(code % 3));
+        X::run_partition(c, std::move(base), g, depth, qtot, int(code % 12));
         c.nontrivial(verif::Hash().pod(ms.simplex).pod(ms.dim).str(ms.name).pod(ms.cells.size()).pod(p).str(assign_str(a)).pod(depth).get());
       } while(next_assign(a, p));
     }
   }
 
   template<typename Shape_>
-  void do_two_level(verif::Ctx& c, const vm::MeshSpec& ms, int depth)
+  void do_two_level(verif::Ctx& c, const vm::MeshSpec& ms, int depth, int P = 2)
   {
     typedef P12<Shape_> X;
     const size_t n = ms.cells.size();
-    const int P = 2;
     std::vector<int> a1;
     if(!first_assign(a1, n, P)) return;
     do
@@ -637,31 +721,42 @@ namespace
       for(int pref = 0; pref < 2; ++pref)
       {
         const size_t mult = pref ? size_t(vm::nchild(ms.simplex, ms.dim, ms.dim)) : 1;
-        if(pref == 1 && n > 4) continue; // refined parents only for the smaller meshes
-        // children assignments of parent 0 and 1: 1 or 2 children each
-        for(int k0 = 1; k0 <= 2; ++k0) for(int k1 = 1; k1 <= 2; ++k1)
+        if(pref == 1 && (n > 4 || P > 2)) continue; // refined parents only for the smaller configurations
+        // refined parents: the children of every coarse parent cell are split into two halves (groups) that are
+        // assigned as a whole, which bounds the space; unrefined parents: one group per cell
+        const size_t gmul = pref ? 2 : 1, gsize = mult / gmul;
+        // odometer over (number of children K_p in {1,2}, surjective group assignment) for every parent
+        std::vector<int> K(size_t(P), 1);
+        std::vector<std::vector<int>> G{size_t(P)};
+        auto init = [&](int q) { for(K[size_t(q)] = 1; K[size_t(q)] <= 2; ++K[size_t(q)]) if(first_assign(G[size_t(q)], pc[size_t(q)] * gmul, K[size_t(q)])) return true; return false; };
+        auto advance = [&](int q) {
+          if(next_assign(G[size_t(q)], K[size_t(q)])) return true;
+          for(++K[size_t(q)]; K[size_t(q)] <= 2; ++K[size_t(q)]) if(first_assign(G[size_t(q)], pc[size_t(q)] * gmul, K[size_t(q)])) return true;
+          return false; };
+        bool okinit = true; for(int q = 0; q < P; ++q) okinit = init(q) && okinit;
+        if(!okinit) continue;
+        for(bool more = true; more; )
         {
-          // refined parents: the children of every coarse parent cell are split into two halves (groups) that are
-          // assigned as a whole, which bounds the space; unrefined parents: one group per cell
-          const size_t gmul = pref ? 2 : 1, gsize = mult / gmul;
-          std::vector<int> g0, g1;
-          if(!first_assign(g0, pc[0] * gmul, k0)) continue;
-          do
+          if(c.want())
           {
-            if(!first_assign(g1, pc[1] * gmul, k1)) break;
-            do
+            std::vector<std::vector<int>> b{size_t(P)};
+            std::string bs;
+            for(int q = 0; q < P; ++q)
             {
-              if(!c.want()) continue;
-              std::vector<int> b0(pc[0] * mult), b1(pc[1] * mult);
-              for(size_t i = 0; i < b0.size(); ++i) b0[i] = g0[i / gsize];
-              for(size_t i = 0; i < b1.size(); ++i) b1[i] = g1[i / gsize];
-              c.desc([&]{ return "two-level " + vm::spec_str(ms) + " cell->parent=" + assign_str(a1) + " parent-refinements=" + std::to_string(pref) + " children0=" + assign_str(b0) + " children1=" + assign_str(b1) + " depth=" + std::to_string(depth); });
-              const int qtot = 3 * (depth + pref);
-              auto base = X::make_base(ms, qtot, int((c.index() * 7 + 1) % 18));
-              X::run_two_level(c, std::move(base), a1, P, {b0, b1}, {k0, k1}, pref, depth, qtot);
-              c.nontrivial(verif::Hash().pod(ms.simplex).pod(ms.dim).str(ms.name).str(assign_str(a1)).pod(pref).str(assign_str(b0)).str(assign_str(b1)).get());
-            } while(next_assign(g1, k1));
-          } while(next_assign(g0, k0));
+              b[size_t(q)].resize(pc[size_t(q)] * mult);
+              for(size_t i = 0; i < b[size_t(q)].size(); ++i) b[size_t(q)][i] = G[size_t(q)][i / gsize];
+              bs += " children" + std::to_string(q) + "=" + assign_str(b[size_t(q)]);
+            }
+            c.desc([&]{ return "two-level " + vm::spec_str(ms) + " cell->parent=" + assign_str(a1) + " parent-refinements=" + std::to_string(pref) + bs + " depth=" + std::to_string(depth); });
+            const int qtot = 3 * (depth + pref);
+            auto base = X::make_base(ms, qtot, int((c.index() * 7 + 1) % 18));
+            X::run_two_level(c, std::move(base), a1, P, b, K, pref, depth, qtot);
+            c.nontrivial(verif::Hash().pod(ms.simplex).pod(ms.dim).str(ms.name).str(assign_str(a1)).pod(pref).str(bs).get());
+          }
+          // next configuration
+          int q = P - 1;
+          while(q >= 0 && !advance(q)) { init(q); --q; }
+          more = (q >= 0);
         }
       }
     } while(next_assign(a1, P));
@@ -771,7 +866,7 @@ int main(int argc, char** argv)
     "for recursive partitions resp. (mesh, p[, budgets, seed]) for the partitioners; every case extracts every patch with the real "
     "RootMeshNode::extract_patch and is non-trivial (>= 1 patch extracted); hash = mesh name, size, assignment strings, depth/seed";
   spec.bounds_quick = "all surjective assignments: quads 2x2 (aligned and rotated cells) all p, two quads touching in one vertex, 3x2 p<=3, triangles 4 cells all p / fan of 5 p<=3, hexa 2x2x1 all p, 2x2x2 p<=2, "
-    "6 tetrahedra p<=2, unit_circle_quad_5 p<=3; depth 2 (2D) / 1 (3D); recursive: 2x2 quads and 3x2 quads with 2 parents x (1..2 children each), parents refined 0/1 times; "
+    "6 tetrahedra p<=2, unit_circle_quad_5 p<=3; depth 2 (2D) / 1 (3D); recursive: 2x2 quads and 3x2 quads with 2 parents x (1..2 children each), parents refined 0/1 times, 2x2 quads / 4 triangles with 3 parents; rank extraction order, Graph/Partition overload, cell order per rank, clone substitution vary with the case; "
     "Parti2Lvl p=1..64 on 9 meshes; PartiIterative strips 1xN (N<=10), blocks, hexa, triangles, p<=4, 4 budget pairs, seeds 0..15; two quads touching in one vertex p<=2";
   spec.bounds_thorough = "as quick plus 3x2 quads all p, fan all p, 2x2x2 hexa p<=3, tetra p<=3, unit_circle_quad_5 all p, flowbench_s3d_01_hexa_11 p=2, depth 2 in 3D; "
     "recursive also on 2x2x1 hexa; Parti2Lvl p<=256; PartiIterative seeds 0..63, p<=6";
@@ -781,6 +876,7 @@ int main(int argc, char** argv)
     "PartiIterative: time(nullptr) and gettimeofday are interposed (seed enumerated, 1 virtual second per clock read); freshly allocated memory is poisoned with mallopt(M_PERTURB)",
     "partitions are disjoint (one rank per cell); overlapping partitions are not generated",
     "control-layer naive/METIS/Zoltan partitioners are outside the build (need MPI / third-party)"};
+  spec.case_timeout_s = 120;
   const char* vr = std::getenv("VERIF_REPO");
   const std::string repo = vr ? vr : "/repo";
   return verif::run(spec, argc, argv, [&](verif::Ctx& c) {
@@ -797,6 +893,8 @@ int main(int argc, char** argv)
         do_assignments<Q>(c, bt, 1, 2, 2, "assign");
       }
       do_assignments<Q>(c, rotate_cells(q22), 1, 4, 2, "assign");
+      { vm::MeshSpec m = rotate_cells(q22); vm::renumber_vertices(m, 2); vm::reorder_cells(m, 2); vm::shift_coords(m); m.name += "-scrambled-negative"; do_assignments<Q>(c, m, 1, 4, 2, "assign"); }
+      { vm::MeshSpec m = vm::gen_block(3, 2, 2, 1); vm::renumber_vertices(m, 1); vm::reorder_cells(m, 1); vm::shift_coords(m); m.name += "-reversed-negative"; do_assignments<H>(c, m, 2, 3, 1, "assign"); }
       do_assignments<Q>(c, q32, 1, th ? 6 : 3, 2, "assign");
       do_assignments<Q>(c, rotate_cells(q32), 2, 2, 1, "assign");
       do_assignments<T>(c, vm::gen_simplex_block(2, 2, 1, 1), 1, 4, 2, "assign");
@@ -817,6 +915,10 @@ int main(int argc, char** argv)
       do_two_level<Q>(c, vm::gen_block(2, 2, 2, 1), 1);
       do_two_level<Q>(c, rotate_cells(vm::gen_block(2, 3, 2, 1)), 1);
       do_two_level<T>(c, vm::gen_simplex_block(2, 2, 1, 1), 1);
+      // three parents: every PatchHaloSplitter holds two parent halos and is intersected with the children of both
+      do_two_level<Q>(c, vm::gen_block(2, 2, 2, 1), 1, 3);
+      do_two_level<T>(c, vm::gen_simplex_block(2, 2, 1, 1), 1, 3);
+      if(th) do_two_level<Q>(c, rotate_cells(vm::gen_block(2, 3, 2, 1)), 1, 3);
       if(th) do_two_level<H>(c, vm::gen_block(3, 2, 2, 1), 1);
     }
     // ---- part 3: Parti2Lvl
